@@ -276,12 +276,13 @@ def run(chk, prog):
     wu = prog.fn("vfps::WakePotentialMap::update", nparams=0)
     chk.used(wu)
     s = I.scan(wu)
-    cp = [c for c in s.calls if c.callee == "std::copy_n"]
-    A.require(len(cp) == 1, "WakePotentialMap::update: expected one copy_n")
-    c = cp[0]
-    ln = S.norm(c.args[1]).subs(sp.Symbol("_xsize", real=True), N) if c.args[1] is not None else None
-    chk.check(ln is not None and sp.expand(ln - N * B) == 0 and str(c.args[2]) == "data(_offset)" and str(c.args[0]) == "wakePotential(_field)",
-              "R4", A.loc(wu, {"line": c.line}), "wake map copies B*N offsets from the field's wake potential into _offset (length %s)" % ln,
+    from .common import offset_copy_from_field
+    oc = offset_copy_from_field(s)
+    A.require(oc is not None, "WakePotentialMap::update: how _offset is filled from the field is not recognised (copy_n or a plain copy loop)")
+    src_t, ln_e, line_c, plain_c = oc
+    ln = S.norm(ln_e).subs(sp.Symbol("_xsize", real=True), N) if ln_e is not None else None
+    chk.check(plain_c and ln is not None and sp.expand(ln - N * B) == 0 and src_t == "wakePotential(_field)",
+              "R4", A.loc(wu, {"line": line_c}), "wake map copies B*N offsets from the field's wake potential into _offset (length %s, source %s)" % (ln, src_t),
               "WakePotentialMap::update:copy:%s" % ln)
     # layout of the source: ElectricField::_wakepotential is [B][N], bunch-major, written as [b][x]
     wp = prog.fn("vfps::ElectricField::wakePotential", nparams=0)
